@@ -1,4 +1,5 @@
 import MimicProofs.Script
+import MimicProofs.KillCode
 import Mimic.Extracted.Handlers
 /-!
 # C09 — KILL QUERY spares the connection; KILL CONNECTION ends exactly the target
@@ -277,5 +278,24 @@ example : Healthy ({ phase := .idle } : S) ∧ (∀ op ∈ scriptOf true (.query
 theorem kill_guards_shape :
     Mimic.Extracted.Handlers.coroutine.lookup "Connection.kill" = some "IF(not self._task)[RETURN]ELSE[] IF(kind == KillKind.QUERY)[IF(not self._executing or self._kill is not None)[RETURN]ELSE[] IF(asyncio.current_task() is self._task)[RETURN]ELSE[]]ELSE[] SET(_kill=kind) DO(cancel)" := by
   decide +kernel
+
+/-! ### `Connection.kill` itself (`Mimic.Extracted.KillCode`, regenerated from `/repo` by `harness/pytrans2.py`) -/
+
+/-- **`Connection.kill`, translated, is the machine's `kill` event** for every machine state and both kinds: a closed
+    connection ignores it; KILL QUERY is recorded only while a command is executing and no kill is pending; KILL
+    CONNECTION is always recorded; recording goes with the cancellation request.  The invariants and termination
+    theorems of this file, which are about the machine's event, are thereby about the code's method. -/
+theorem kill_is_code (s : Mimic.Conn.S) (k : Mimic.Conn.Kill) :
+    Mimic.Extracted.KillCode.kill (MimicProofs.KillCode.view s) (MimicProofs.KillCode.kindOf k) false
+      = MimicProofs.KillCode.view (Mimic.Conn.step s (.kill k)) :=
+  MimicProofs.KillCode.kill_is_event s k
+
+/-- a KILL statement executed by the target itself (`asyncio.current_task() is self._task`): KILL QUERY does nothing,
+    KILL CONNECTION records the kind and requests the cancellation (the machine's `selfKill` operation) -/
+theorem self_kill_is_code (c : Mimic.Extracted.KillCode.Connection Unit) (t : Mimic.Extracted.KillCode.Task Unit) (ht : c._task = some t) :
+    Mimic.Extracted.KillCode.kill c Mimic.Extracted.KillCode.KILL_QUERY true = c ∧
+    Mimic.Extracted.KillCode.kill c Mimic.Extracted.KillCode.KILL_CONNECTION true
+      = { c with _kill := some Mimic.Extracted.KillCode.KILL_CONNECTION, _task := some { t with cancel_requested := true } } :=
+  MimicProofs.KillCode.kill_from_own_task c t ht
 
 end MimicProps.C09
